@@ -115,6 +115,8 @@ def _v(vk, a):
         return a
     if vk == "VCInt" and 100 <= a < 200:
         return a - 100
+    if vk == "VCInt" and 300 <= a < 400:
+        return a - 300
     return None
 
 
@@ -202,12 +204,20 @@ def gen_items(rnd, vk, n, cur):
         items[rnd.randrange(n)] = rnd.choice([200, 201, 200, 105])
     if n and cur and 0.45 <= r < 0.6:
         items[rnd.randrange(n)] = rnd.choice(cur)         # an item already present
+    if n and 0.6 <= r < 0.68:
+        items[rnd.randrange(n)] = 300 + rnd.randint(0, 9)  # the float d.0: equal to the int d, another value
     return items
 
 
 KINDS = ["SetInt", "SetInt", "SetSlice", "SetSlice", "SetSlice", "SetSlice", "DelInt", "DelSlice", "DelSlice",
          "DelSlice", "Append", "Extend", "Iadd", "Imul", "Insert", "Insert", "Pop", "Pop", "Remove", "Reverse",
          "Sort", "Clear"]
+
+
+def arg_kind(rnd):
+    """how the iterable argument is passed: a list (no marker), an ownerless trait list, a generator, a tuple"""
+    r = rnd.random()
+    return ["loose"] if r < 0.12 else ["gen"] if r < 0.24 else ["tuple"] if r < 0.3 else []
 
 
 def gen_op(rnd, vk, cur):
@@ -219,7 +229,7 @@ def gen_op(rnd, vk, cur):
         s = gen_slice(rnd, n)
         cnt = len(range(*slice(*s).indices(n))) if s[2] != 0 else rnd.randint(0, 2)
         m = cnt if rnd.random() < 0.7 else rnd.randint(0, 4)
-        return [k, s, gen_items(rnd, vk, m, cur)] + (["loose"] if rnd.random() < 0.15 else [])
+        return [k, s, gen_items(rnd, vk, m, cur)] + arg_kind(rnd)
     if k == "DelInt":
         return [k, gen_index(rnd, n, huge=10 ** 30)]
     if k == "DelSlice":
@@ -227,7 +237,7 @@ def gen_op(rnd, vk, cur):
     if k == "Append":
         return [k, gen_items(rnd, vk, 1, cur)[0]]
     if k in ("Extend", "Iadd"):
-        return [k, gen_items(rnd, vk, rnd.choice([0, 1, 1, 2, 3, 5]), cur)] + (["loose"] if rnd.random() < 0.15 else [])
+        return [k, gen_items(rnd, vk, rnd.choice([0, 1, 1, 2, 3, 5]), cur)] + arg_kind(rnd)
     if k == "Imul":
         m = rnd.choice([-1, 0, 1, 2, 2, 3])
         return [k, m if n * m <= 40 else rnd.choice([0, 1])]
@@ -237,8 +247,11 @@ def gen_op(rnd, vk, cur):
         return [k, None if rnd.random() < 0.3 else gen_index(rnd, n)]
     if k == "Remove":
         r = rnd.random()
-        if cur and r < 0.6:
+        if cur and r < 0.5:
             return [k, rnd.choice(cur)]
+        if cur and r < 0.62:
+            x = rnd.choice(cur)                              # an equal value of another type (1 vs 1.0)
+            return [k, 300 + x if 0 <= x < 100 else x - 300 if 300 <= x < 400 else x]
         if cur and r < 0.75 and vk == "VCInt":
             x = rnd.choice(cur)
             return [k, 100 + x if 0 <= x < 100 else x]     # the string form of a present int: must not match
@@ -607,7 +620,7 @@ def run(ctx):
         rep = json.load(open(ctx.replay))["replay"]
         cases = [rep["case"]] if "case" in rep else []
     else:
-        n, maxops, maxinit = (700, 10, 8) if ctx.tier == "quick" else (20000, 30, 30)
+        n, maxops, maxinit = (500, 10, 8) if ctx.tier == "quick" else (20000, 30, 30)
         cases = corpus() + [gen_case(rnd, ctx, maxops, maxinit) for _ in range(n)]
     for c in cases[:2] + cases[-2:]:
         ctx.sample(c)
@@ -618,7 +631,7 @@ def run(ctx):
         if ctx.tier == "quick":
             # a slice of the grid: index bound 3, lengths 0..4, one validator per length drawn from the seed
             cfgs = [dict(target=rnd.choice(["plain", "obj"]), vk=rnd.choice(["VAll", "VInt", "VCInt"]), n=n)
-                    for n in sorted(rnd.sample(range(0, 6), 3))]
+                    for n in sorted(rnd.sample(range(0, 6), 2))]
             total = run_grid(ctx, cfgs, 3, 250, "C05 single-operation grid (quick slice)", hist_kw=hist_args())
             run_indices(ctx, range(0, 4), 3, 500)
         else:
